@@ -568,6 +568,7 @@ func runC07(e *Env) error {
 	if e.Replay == "" {
 		c07Import(e, work)
 		c07DirOrder(e, work)
+		c07DriverEscapes(e, work)
 	}
 	parallel(e.Workers, len(cases), func(i int) {
 		c := cases[i]
@@ -602,8 +603,10 @@ func runC07(e *Env) error {
 			e.Res.Sample(map[string]any{"dialect": c.Dialect, "formatter": c.Formatter, "delimiter": c.Delimiter, "cmds": c.Changes}, 4)
 		}
 		okI, sig, what := c07Monitor(c, impl)
-		if okI && impl.Err == "" && impl.Drv != nil {
-			if ok2, sig2, what2 := c07Monitor(c, *impl.Drv); !ok2 {
+		if impl.Drv != nil && !strings.HasPrefix(impl.Err, "harness:") {
+			ok2, sig2, what2 := c07Monitor(c, *impl.Drv)
+			switch {
+			case okI && impl.Err == "" && !ok2:
 				okI, sig, what = false, sig2, what2+" (read through migrate.FileStmts with the "+c.Dialect+" driver, as the executor does)"
 			}
 		}
